@@ -5,31 +5,38 @@ class C04(DTDCheck):
     id = "C04"
     prop_file = "theories/Properties/Properties_C04.v"
     theorems = ("C04_exclusive", "C04_exclusive_datum", "C04_begin_waits", "C04_begun_after_conflicts",
-                "C04_concurrent_set", "C04_readers_run_together")
+                "C04_concurrent_set", "C04_readers_run_together", "C04_mechanism_exclusive",
+                "C04_mechanism_begun_after", "C04_mechanism_unguarded_refuted")
     styles = ("readers", "readers", "readers", "mixed", "chain", "wide")
     level_text = ("Invariant over every run of the DTD protocol model (every sequence, body, window, event list): two running "
                   "tasks never conflict (per datum: a running W/RW holder excludes every other running task touching it); Begin "
                   "is enabled only when every earlier-inserted conflicting task has ended (a writer waits for all earlier "
                   "readers and writers); conversely any set of idle tasks whose earlier conflicting tasks ended can run "
-                  "together, in particular all n readers between two writers, for every n. Partial: the real overlap of "
-                  "machine instructions is observed (per-datum in-flight counters with atomic increments in test-owned "
-                  "bodies that spin a seeded time), not proved; the reader-count/AGAIN mechanism is abstracted into the "
-                  "dependency 'writer after readers'.")
+                  "together, in particular all n readers between two writers, for every n. Below the protocol, the flow-level "
+                  "mechanism model (DTD/DTDGate.v: last_user/alive flag, chained flows, reader count of the copy, walk of a "
+                  "completing writer, AGAIN test of data_lookup, recycled task structs) is proved to have the same exclusion "
+                  "for every sequence without repeated tiles and every event list WITH the guard of "
+                  "notes/findings/C03-stale-last-user.patch, and is refuted WITHOUT it (C04_mechanism_unguarded_refuted; witness "
+                  "replayed on the real code by corpus/C04/stale_last_user.txt). Partial: the real overlap of machine "
+                  "instructions is observed (per-datum in-flight counters with atomic increments in test-owned bodies that "
+                  "spin a seeded time), not proved; insertion and completion are atomic steps of the mechanism model.")
     level_note = ("Trusted: Coq kernel, extraction, the in-flight counters of harness/h_dtd.c (entry/exit stamps, re-check of the "
-                  "values read after the spin). Real runs sample the schedules of the OS. The window between marking the chain "
-                  "tail not-alive and parsec_dtd_data_copy_reader_retain in parsec_dtd_ordering_correctly is not modelled "
-                  "(see docs/DTD_NOTES.md).")
-    technique = ("Coq invariant proof over all schedules of the protocol model + observation differential: per-datum overlap "
-                 "counters maintained by the task bodies of the real runtime")
+                  "values read after the spin). Real runs sample the schedules of the OS. The mechanism model is hand-written "
+                  "from the C code and tied to it only through the witness replay and the differential stream. The window "
+                  "between marking the chain tail not-alive and parsec_dtd_data_copy_reader_retain in "
+                  "parsec_dtd_ordering_correctly is not modelled: a race confirmed by delay injection "
+                  "(notes/findings/C04-retain-after-not-alive.md).")
+    technique = ("Coq invariant proofs over all schedules (protocol model; flow-level mechanism model refining it, refuted "
+                 "without the guard) + observation differential: per-datum overlap counters maintained by the task bodies "
+                 "of the real runtime")
     rule = ("as C03 with more reader groups between writers and spinning bodies; non-trivial = the sequence has a dependency; "
             "the evidence reports how many cases really had overlapping readers (impl_overlap_stats)")
     trusted = ("harness/h_dtd.c: per-datum in-flight counters (atomic inc/dec at body entry/exit), bodies spin a seeded time",)
     assumptions = ("single process; bodies access their data only between entry and exit of the body",
                    "a task names a datum at most once in the differential stream")
 
-    def oracle(self, case, obs):
-        v = c04_verdict(case, obs)
-        return v[1] if v else None
+    def verdict(self, case, obs):
+        return c04_verdict(case, obs)
 
     def defect_cases(self):
         # reader count driven wrong by a task that reads one datum through two flows: a later
